@@ -1,6 +1,7 @@
 import functools
 import operator
 from collections import defaultdict
+from decimal import Decimal, localcontext
 from functools import reduce
 from typing import Dict, Iterable, List, Set, Tuple, TypeVar
 
@@ -350,7 +351,7 @@ def _find_path_recursive(
     for intermediate, scale in _ratios[start].items():
         offset = _offsets[start].get(intermediate, 0)
         if intermediate == end:
-            return [(scale**exponent, offset**exponent, end**exponent)]
+            return [(_raised(scale, exponent), _raised(offset, exponent), end**exponent)]
 
         path = _find_path_recursive(intermediate, end, visited=visited)
         if not path:
@@ -358,7 +359,7 @@ def _find_path_recursive(
 
         path = [(scale, offset, intermediate)] + list(path)
         path = [
-            (scale**exponent, offset**exponent, unit**exponent)
+            (_raised(scale, exponent), _raised(offset, exponent), unit**exponent)
             for scale, offset, unit in path
         ]
         if not best_path or len(path) < len(best_path):
@@ -368,6 +369,20 @@ def _find_path_recursive(
         return best_path
 
     return []
+
+
+def _raised(number: Numeric, exponent: int) -> Numeric:
+    """number**exponent, for a path that is going to be memoised: a Decimal is raised in
+    a context of its own, because the precision that happens to be in force when a
+    path is searched for the first time must not stay behind in the memo (even
+    `Decimal ** 1` rounds to the ambient precision)"""
+    if exponent == 1:
+        return number
+    if isinstance(number, Decimal):
+        with localcontext() as context:
+            context.prec = max(context.prec, 60)
+            return number**exponent
+    return number**exponent
 
 
 def _reduce_dimension(start: Unit, end: Unit) -> Tuple[int, Unit, Unit]:
